@@ -5,7 +5,9 @@
 (* The family of struct types is fixed in the replayer (harness/c16):      *)
 (*   Root  { name string (attr); count *int (attr, pointer); opt string    *)
 (*           (optional attr); tags map[string]string (optional attr);      *)
-(*           list []string (optional attr); inner *Inner (block);          *)
+(*           list []string (optional attr); req []string and reqmap         *)
+(*           map[string]string (REQUIRED attrs: nil is written as null);    *)
+(*           inner *Inner (block);                                          *)
 (*           items []Item (repeated labelled block);                       *)
 (*           pitems []*Item (repeated labelled block of pointers) }        *)
 (*   Inner { flag bool (attr); note string (optional attr) }               *)
@@ -33,7 +35,9 @@ Inner(flag, note) == [set |-> TRUE, flag |-> flag, note |-> note]
 NoInner == [set |-> FALSE, flag |-> FALSE, note |-> 0]
 
 \* note = 0 / opt = 0 : the optional string attribute holds its zero value (not written)
-Zero == [name |-> 1, count |-> -1, opt |-> 0, tags |-> <<>>, list |-> <<>>, inner |-> NoInner, items |-> <<>>, pitems |-> <<>>]
+\* req / reqmap: [nil, e] - a nil slice/map is a value of its own (encoded as null)
+Zero == [name |-> 1, count |-> -1, opt |-> 0, tags |-> <<>>, list |-> <<>>, req |-> [nil |-> TRUE, e |-> <<>>], reqmap |-> [nil |-> TRUE, e |-> <<>>],
+         inner |-> NoInner, items |-> <<>>, pitems |-> <<>>]
 
 Strs == 1..NStr
 
@@ -48,6 +52,12 @@ AddTag   == /\ Len(val.tags) < MaxSeq
                   /\ val' = [val EXCEPT !.tags = Append(@, [k |-> k, v |-> v])]
 AddList  == /\ Len(val.list) < MaxSeq
             /\ \E s \in Strs : val' = [val EXCEPT !.list = Append(@, s)]
+SetReq   == \/ val' = [val EXCEPT !.req = [nil |-> FALSE, e |-> <<>>]]
+            \/ (Len(val.req.e) < MaxSeq /\ \E s \in Strs : val' = [val EXCEPT !.req = [nil |-> FALSE, e |-> Append(@.e, s)]])
+SetReqMap == \/ val' = [val EXCEPT !.reqmap = [nil |-> FALSE, e |-> <<>>]]
+             \/ (Len(val.reqmap.e) < MaxSeq /\ \E k \in {1, 11}, v \in {1, 5} :
+                    /\ ~\E i \in 1..Len(val.reqmap.e) : val.reqmap.e[i].k = k
+                    /\ val' = [val EXCEPT !.reqmap = [nil |-> FALSE, e |-> Append(@.e, [k |-> k, v |-> v])]])
 SetInner == \E f \in BOOLEAN, n \in {0} \cup Strs : val' = [val EXCEPT !.inner = Inner(f, n)]
 LeafSets == {<<>>} \cup {<<Leaf(a, b, w)>> : a \in {1, 2}, b \in {1}, w \in {1, 3}} \cup {<<Leaf(1, 1, 1), Leaf(2, 3, 4)>>}
 AddItem  == /\ Len(val.items) < MaxSeq
@@ -58,12 +68,12 @@ AddPItem == /\ Len(val.pitems) < MaxSeq
 CONSTANT MaxSteps
 Next == /\ step < MaxSteps
         /\ step' = step + 1
-        /\ (SetName \/ SetCount \/ SetOpt \/ AddTag \/ AddList \/ SetInner \/ AddItem \/ AddPItem)
+        /\ (SetName \/ SetCount \/ SetOpt \/ AddTag \/ AddList \/ SetReq \/ SetReqMap \/ SetInner \/ AddItem \/ AddPItem)
 Spec == Init /\ [][Next]_vars
 
 ---------------------------------------------------------------------------
 (* The abstract body of a value and its inverse *)
-Attrs(v) == [name |-> v.name, count |-> v.count, opt |-> v.opt, tags |-> v.tags, list |-> v.list]
+Attrs(v) == [name |-> v.name, count |-> v.count, opt |-> v.opt, tags |-> v.tags, list |-> v.list, req |-> v.req, reqmap |-> v.reqmap]
 Blocks(v) == (IF v.inner.set THEN <<[type |-> "inner", labels |-> <<>>, inner |-> v.inner]>> ELSE <<>>)
              \o [i \in 1..Len(v.items) |-> [type |-> "item", labels |-> <<v.items[i].key>>, item |-> v.items[i]]]
              \o [i \in 1..Len(v.pitems) |-> [type |-> "pitem", labels |-> <<v.pitems[i].key>>, item |-> v.pitems[i]]]
@@ -75,7 +85,7 @@ DecodeStruct(a, bs) ==
     LET inners == BlocksOfType(bs, "inner")
         items == BlocksOfType(bs, "item")
         pitems == BlocksOfType(bs, "pitem")
-    IN [name |-> a.name, count |-> a.count, opt |-> a.opt, tags |-> a.tags, list |-> a.list,
+    IN [name |-> a.name, count |-> a.count, opt |-> a.opt, tags |-> a.tags, list |-> a.list, req |-> a.req, reqmap |-> a.reqmap,
         inner |-> IF Len(inners) = 0 THEN NoInner ELSE inners[1].inner,
         items |-> [i \in 1..Len(items) |-> items[i].item],
         pitems |-> [i \in 1..Len(pitems) |-> pitems[i].item]]
